@@ -101,6 +101,11 @@ func genC08(g *Gen, tier string, idx int) *wire.Scenario {
 	for _, r := range x.Text {
 		sc.Script = append(sc.Script, tok(string(r), "self-insert"))
 	}
+	// the application may have installed a multi-line acceptance callback (which finds these
+	// single lines complete): every accept variant must record the same with it
+	if g.P(35) {
+		env.Multiline = "backslash"
+	}
 	x.Exit = Pick(g, []string{"accept-line", "accept-line", "accept-and-hold", "multiline", "operate-and-get-next",
 		"accept-and-infer-next-history", "interrupt", "eof-key", "eof-fault"})
 	x.Records = false
